@@ -81,7 +81,10 @@ Result execute(const Plan &p) {
     auto sig = [&](const char *oracle, const char *clause, const std::string &detail) { Violation v; v.oracle = oracle; v.add("component", "distributed_matrix"); v.add("clause", clause); v.add("ranks", R); v.detail = detail; return v; };
 
     // harness-side result stores (all ranks share the process)
-    Entries gotA, gotT, gotC, gotS, gotF;
+    Entries gotA, gotT, gotC, gotS, gotF, gotK, gotKT, gotKC, gotKF;
+    std::vector<double> yk(n, 0.0), gshs(R, 0.0), pows(R, 0.0);
+    // a copy of A with a guaranteed non-zero diagonal (scaled spectral radius estimates)
+    gen::Csr Adg; if (square) { gen::Builder bd(n, n); for (long i = 0; i < n; ++i) { double s = 0; for (ptrdiff_t j = A.ptr[i]; j < A.ptr[i+1]; ++j) { s += std::fabs(A.val[j]); if (A.col[j] != i) bd.set(i, A.col[j], A.val[j]); } bd.set(i, i, (double)(1 + ((long)s) % 7) * ((i % 3) ? 1.0 : -2.0)); } Adg = bd.finish(); }
     std::vector<double> y1(n, 0.0), y2(n, 0.0), rr(n, 0.0);
     std::vector<double> ip(R, 0.0), gersh(R, 0.0), gershs(R, 0.0), power(R, 0.0);
     std::vector<long> grows(R, -1), gcols(R, -1), gnnz(R, -1);
@@ -119,6 +122,30 @@ Result execute(const Plan &p) {
             gersh[rank] = be::spectral_radius<false>(dA, 0);
             power[rank] = be::spectral_radius<false>(dA, (int)p.get("power_iters"));
         }
+        if (square && n > 0) {
+            gen::Csr Ds = strip(Adg, r0, r1);
+            DM dD(comm, std::make_tuple((size_t)Ds.n, std::ref(Ds.ptr), std::ref(Ds.col), std::ref(Ds.val)), c1 - c0);
+            gshs[rank] = be::spectral_radius<true>(dD, 0);
+            pows[rank] = be::spectral_radius<true>(dD, (int)p.get("power_iters"));
+        }
+        // history on one object: moved to the backend with keep_src = true (what a rebuildable hierarchy does), then used as a
+        // build matrix again: local()/remote() must still describe the matrix in global column numbers
+        {
+            DM dK(comm, std::make_tuple((size_t)As.n, std::ref(As.ptr), std::ref(As.col), std::ref(As.val)), c1 - c0);
+            dK.move_to_backend(DBackend::params(), true);
+            std::vector<double> xk(x.begin() + c0, x.begin() + c1), ok(r1 - r0, std::numeric_limits<double>::quiet_NaN());
+            dK.mul(1.0, xk, 0.0, ok);
+            for (long i = r0; i < r1; ++i) yk[i] = ok[i - r0];
+            if (!dK.local() || !dK.remote()) fails[rank] += "keep_src=true dropped the build matrices; ";
+            else {
+                add_strip(gotK, *dK.local(), *dK.remote(), r0, c0);
+                auto dKT = amgcl::mpi::transpose(dK); add_strip(gotKT, *dKT->local(), *dKT->remote(), c0, r0);
+                auto dKC = amgcl::mpi::product(dK, dB); add_strip(gotKC, *dKC->local(), *dKC->remote(), r0, kp[rank]);
+                amgcl::mpi::distributed_matrix<amgcl::backend::builtin<float> > dF(dK); add_strip(gotKF, *dF.local(), *dF.remote(), r0, c0);
+                dK.mul(1.0, xk, 0.0, ok);      // and the backend copy still works afterwards
+                for (long i = r0; i < r1; ++i) if (yk[i] != ok[i - r0]) fails[rank] += "product after re-use of the kept source differs; ";
+            }
+        }
         // matrix-vector products: twice on the same object (send/receive buffers and requests are reused)
         dA.move_to_backend();
         std::vector<double> xl(x.begin() + c0, x.begin() + c1), yl(y0.begin() + r0, y0.begin() + r1), zl(z0.begin() + r0, z0.begin() + r1), rl(r1 - r0, 777.0);
@@ -154,16 +181,24 @@ Result execute(const Plan &p) {
         Entries wantS = wantA; for (Entries::iterator it = wantS.begin(); it != wantS.end(); ++it) it->second *= 0.5;
         if (!(e = same(gotS, wantS)).empty()) res.fail(sig("serial-equivalence", "scale-sort_rows", e));
         if (!(e = same(gotF, wantA)).empty()) res.fail(sig("serial-equivalence", "copy-between-backends", e));
+        if (!(e = same(gotK, wantA)).empty()) res.fail(sig("serial-equivalence", "kept-source-after-move_to_backend", e));
+        if (!(e = same(gotKT, wantT)).empty()) res.fail(sig("serial-equivalence", "transpose-after-move_to_backend(keep_src)", e));
+        if (!(e = same(gotKC, wantC)).empty()) res.fail(sig("serial-equivalence", "product-after-move_to_backend(keep_src)", e));
+        if (!(e = same(gotKF, wantA)).empty()) res.fail(sig("serial-equivalence", "copy-after-move_to_backend(keep_src)", e));
         for (int r = 0; r < R; ++r) if (grows[r] != n || gcols[r] != m || gnnz[r] != (long)A.nnz()) { res.fail(sig("collective-scalars", "global-sizes", fmt("rank %d reports %ld x %ld with %ld nonzeros, expected %ld x %ld with %zu", r, grows[r], gcols[r], gnnz[r], n, m, A.nnz()))); break; }
         for (long i = 0; i < n; ++i) { double ax = 0, ax2 = 0, ax3 = 0; for (ptrdiff_t j = A.ptr[i]; j < A.ptr[i+1]; ++j) { ax += A.val[j] * x[A.col[j]]; ax2 += A.val[j] * x2[A.col[j]]; ax3 += A.val[j] * x3[A.col[j]]; }
             if (y1[i] != alpha * ax) { res.fail(sig("serial-equivalence", "spmv-beta-zero", fmt("row %ld: %.17g, serial %.17g", i, y1[i], alpha * ax))); break; }
             if (y2[i] != alpha * ax2 + beta * y0[i]) { res.fail(sig("serial-equivalence", "spmv-repeated", fmt("row %ld: %.17g, serial %.17g", i, y2[i], alpha * ax2 + beta * y0[i]))); break; }
+            if (yk[i] != ax) { res.fail(sig("serial-equivalence", "spmv-kept-source", fmt("row %ld: %.17g, serial %.17g", i, yk[i], ax))); break; }
             if (rr[i] != z0[i] - ax3) { res.fail(sig("serial-equivalence", "residual", fmt("row %ld: %.17g, serial %.17g", i, rr[i], z0[i] - ax3))); break; } }
         double dot = 0; for (long i = 0; i < n; ++i) dot += y0[i] * z0[i];
         for (int r = 0; r < R; ++r) if (ip[r] != dot) { res.fail(sig("collective-scalars", "inner-product", fmt("rank %d: %.17g, serial %.17g", r, ip[r], dot))); break; }
         if (square && n > 0) {
             double want = 0; for (long i = 0; i < n; ++i) { double s = 0; for (ptrdiff_t j = A.ptr[i]; j < A.ptr[i+1]; ++j) s += std::fabs(A.val[j]); want = std::max(want, s); }
+            double wants = 0; for (long i = 0; i < n; ++i) { double sm = 0, dia = 1; for (ptrdiff_t j = Adg.ptr[i]; j < Adg.ptr[i+1]; ++j) { sm += std::fabs(Adg.val[j]); if (Adg.col[j] == i) dia = Adg.val[j]; } wants = std::max(wants, sm * std::fabs(1 / dia)); }
+            for (int r = 0; r < R; ++r) if (gshs[r] != wants) { res.fail(sig("collective-scalars", "gershgorin-scaled", fmt("rank %d: %.17g, serial %.17g", r, gshs[r], wants))); break; }
             for (int r = 0; r < R; ++r) { if (gersh[r] != want) { res.fail(sig("collective-scalars", "gershgorin", fmt("rank %d: %.17g, serial %.17g", r, gersh[r], want))); break; }
+                if (!bits_equal(pows[r], pows[0])) { res.fail(sig("collective-scalars", "scaled-power-method-identical-on-ranks", fmt("rank %d: %.17g, rank 0: %.17g", r, pows[r], pows[0]))); break; }
                 if (!bits_equal(power[r], power[0])) { res.fail(sig("collective-scalars", "power-method-identical-on-ranks", fmt("rank %d: %.17g, rank 0: %.17g", r, power[r], power[0]))); break; } }
         }
     }
